@@ -447,7 +447,9 @@ def check_c03p(trace, res: Result, hs: Hasher):
         if fc:
             res.probes["program with a word-crossing access (cache on: rejected)"] += 1
             e = excs[on]
-            if not e or e["address"] != fc[0]:
+            # rejected = the run ends with an error at that instruction (an error that carries no address - how
+            # errors are typed is C15's business - counts as a rejection)
+            if not e or (e["address"] is not None and e["address"] != fc[0]):
                 res.violate("C03", "crossing-access-not-rejected-at-its-instruction", expected=fc[0],
                             got=e and e["address"], configuration=on)
                 return
@@ -457,7 +459,7 @@ def check_c03p(trace, res: Result, hs: Hasher):
     # *within each pipeline mode* (whether the two modes agree with each other is C02's business)
     for off, on in pairs:
         eo, en = excs[off], excs[on]
-        if (eo and eo["address"]) != (en and en["address"]):
+        if bool(eo) != bool(en) or (eo and en and None not in (eo["address"], en["address"]) and eo["address"] != en["address"]):
             res.violate("C03", "fault-differs-with-cache", expected=eo, got=en, configuration=on)
             return
         if eo:
